@@ -234,3 +234,24 @@ Fixpoint walk (c : cfg) (q : Z -> option Z) (n : nat) (st : tstate) (r t : Z) : 
   end.
 
 Definition no_pp : Z -> option Z := fun _ => None.
+
+(* ---- wrapper-level observations (core/consensus/qbft runInstance -> core/qbft.Run) ----
+   What an observer placed between runInstance and qbft.Run sees of the successive NewTimer(round)
+   calls of ONE consensus instance: the round, the clock reading, the instant at which the returned
+   channel fired (None: not before it was stopped / the observation ended at [until]).  The duration
+   asked of the clock is not visible there.  The instance must behave as ONE timer object:
+   [run_obs c init os] threads a single timer state through all calls of the instance. *)
+Inductive obs := Obs (round now : Z) (fire : option Z) (until : Z).
+
+Definition step_obs (c : cfg) (st : tstate) (o : obs) : option tstate :=
+  match o with
+  | Obs r now fire until =>
+      let '(st', d) := tstep c st r now in
+      if oeqb fire (expected_fire now d until) then Some st' else None
+  end.
+
+Fixpoint first_reject_obs (c : cfg) (st : tstate) (os : list obs) (i : nat) : option nat :=
+  match os with
+  | [] => None
+  | o :: t => match step_obs c st o with Some st' => first_reject_obs c st' t (S i) | None => Some i end
+  end.
